@@ -140,6 +140,12 @@ func pfPrelude() []pfCase {
 		st("foo.apps.x.io", "/", S("foo.apps.x.io", nil), nil),                                     // address ok, domain rule fails: all-of on requests
 		st("foo.apps.x.io", "/", S("foo.apps.x.io", func(s *pfSess) { s.Email = "bob@y.io" }), nil), // domain ok, address fails
 		st("foo.apps.x.io", "/", S("bar.apps.x.io", nil), nil),
+		// one upstream (one provider) serving several hosts: every sign-out gets a return address on *its* host, whatever came before
+		st("foo.apps.x.io", "/oauth2/sign_out", S("foo.apps.x.io", nil), nil),
+		st("bar.apps.x.io", "/oauth2/sign_out", S("bar.apps.x.io", nil), nil),
+		st("foo.apps.x.io", "/oauth2/sign_out", none, nil),
+		st("bar.apps.x.io", "/", none, nil),
+		st("foo.apps.x.io", "/x", none, nil),
 	}})
 	// a login flow, then a history on the resulting cookie
 	flow := func(host string) []pfStep {
